@@ -734,7 +734,7 @@ func scenario(e *simcore.Env, tp *simcore.Tape, g engine) {
 		return ps
 	}
 	writersLeft := tp.Weighted(3, 3, 2)
-	advLeft := tp.Weighted(3, 2, 2, 1)
+	advLeft := tp.Weighted(2, 2, 2, 2)
 	maxSteps := []int{150, 400, 1000, 40}[tp.Choose(4)]
 	var burstActor string
 	burstLeft := 0
@@ -768,8 +768,13 @@ func scenario(e *simcore.Env, tp *simcore.Tape, g engine) {
 		if advLeft > 0 {
 			optAdv = nOpt
 			nOpt++
-			if snapStarted { // maintenance in the middle of the request is what the race is about: three tickets
-				nOpt += 2
+			if snapStarted { // maintenance in the middle of the request is what the race is about: three tickets,
+				nOpt += 2 // eight while the request is between pinning a table's parts and writing its manifest
+				for _, p := range parked {
+					if p.Actor == "snap" && strings.HasPrefix(p.Site, "snapshot.go:") {
+						nOpt += 5
+					}
+				}
 			}
 		}
 		if nOpt == 0 {
